@@ -176,6 +176,10 @@ class C04(Prop):
     def gen(self, rng, tier):
         n = 900 if tier == "quick" else 25000
         names = list(OPS)
+        from .c06 import midshuffle_pairs
+        for k, arrays in enumerate(midshuffle_pairs()):
+            yield {"op": "binop", "form": "arrays", "operator": names[k % len(names)] if names[k % len(names)] != "pow" else "sub",
+                   "arrays": [gen.clean(a) for a in arrays], "small": False}
         for _ in range(n):
             r = rng.random()
             op = rng.choice(names)
